@@ -1055,3 +1055,28 @@ Theorem C07_codegen_simulates_heap_example_runs :
   fst (run_a64 20 2000 hxa_code (3 :: 100 :: nil)) = ((true, 106) :: nil, OExit 106).
 Proof. exact hxa_runs. Qed.
 Print Assumptions C07_codegen_simulates_heap_example_runs.
+
+(* a second example that crosses the register file: the same loop with twelve more integers carried along (15 variables at
+   the head of the loop): the block pointers of every object it allocates, the fields it loads and the variables it drops
+   live in SPILL SLOTS - acquire_block into a spill slot (`STR X0, [SP, _]`) while the reuse list is non-trivial, loads with
+   the X10 evacuation (`STR X10, [SP, 2040]`); named AxCut linearized by the model of the pass *)
+From SCC Require Import Proof.A64HSimExampleW.
+Theorem C07_codegen_simulates_heap_example_wide_hypotheses :
+  prog_ok hxw_prog = true /\
+  lin_check_prog hxw_lin = true /\ ann_check_prog hxw_lin = true /\ AxHeapTyping.entry_ext hxw_lin = true /\
+  plain_names hxw_lin = true /\ plain_types hxw_lin = true /\ lits_i64 hxw_lin = true /\ tags_i64 hxw_lin = true /\
+  (exists lc', a64_compile hxw_lin 0 = Ok (hxw_code, 2%nat, lc')) /\ asm_wf hxw_code = None /\ code_small hxw_code = true /\
+  args_i64 (3 :: 100 :: nil) = true /\ X86HSimExample.fits_run 4000 hxw_lin (3 :: 100 :: nil) = true.
+Proof. exact hxw_hypotheses. Qed.
+Print Assumptions C07_codegen_simulates_heap_example_wide_hypotheses.
+Theorem C07_codegen_simulates_heap_example_wide_applied :
+  exists outer inner, fst (run_a64 outer inner hxw_code (3 :: 100 :: nil)) = run_linear 4000 hxw_lin (3 :: 100 :: nil).
+Proof. exact hxw_simulated. Qed.
+Print Assumptions C07_codegen_simulates_heap_example_wide_applied.
+Theorem C07_codegen_simulates_heap_example_wide_runs :
+  run_linear 4000 hxw_lin (3 :: 100 :: nil) = ((true, 147) :: nil, OExit 147) /\
+  fst (run_a64 40 4000 hxw_code (3 :: 100 :: nil)) = ((true, 147) :: nil, OExit 147) /\
+  existsb (fun c => match c with STR (X 0) SP _ => true | _ => false end) hxw_code = true /\
+  existsb (fun c => match c with STR (X 10) SP 2040 => true | _ => false end) hxw_code = true.
+Proof. exact hxw_runs. Qed.
+Print Assumptions C07_codegen_simulates_heap_example_wide_runs.
